@@ -122,7 +122,11 @@ int vp_harness_main(void) {
 #endif
 #elif OP == 5
   { uint32_t flags = 99; int32_t fl = 99;
-    int64_t back = (int64_t)(int16_t)vp_to_short(&a, RADIX, &fl); flags = (uint32_t)fl;
+#ifndef RT_TO
+#define RT_TO to_short
+#define RT_T int16_t
+#endif
+    int64_t back = (int64_t)(RT_T)CC_(vp_, RT_TO)(&a, RADIX, &fl); flags = (uint32_t)fl;
     ASSERT(back == sv, "parsing the printed text in the same base returns the original value");
     ASSERT(flags == 3, "ok and full_match are both set"); }
 #endif
